@@ -91,25 +91,26 @@ def partsComps : List Comp → List Str
 def partsIfs : List Expr → List Str
   | [] => []
   | c :: cs => [['i', 'f']] ++ parts c ++ partsIfs cs
-/-- parameters with a default: name, then the default -/
-def partsDefaults : List Str → List Expr → List Str
+/-- parameters with a default, one item each: name, then the default -/
+def partsDefaults : List Str → List Expr → List (List Str)
   | _, [] => []
   | [], _ :: _ => []
-  | a :: as, d :: ds => [a] ++ parts d ++ partsDefaults as ds
+  | a :: as, d :: ds => ([a] ++ parts d) :: partsDefaults as ds
 def partsKwDefaults : List Str → List (Option Expr) → List Str
   | _, [] => []
   | [], _ :: _ => []
   | a :: as, d :: ds => [a] ++ (match d with | none => [] | some e => parts e) ++ partsKwDefaults as ds
-/-- `posonly, /, args (the last ones with defaults), *vararg | *, kwonly…, **kwarg` -/
+/-- `posonly…, /, args… (the last positional ones with defaults), *vararg | *, kwonly… (with defaults), **kwarg` -/
 def partsArgs : Args → List Str
   | .mk posonly args vararg kwonly kwDefaults kwarg defaults =>
       let all := posonly ++ args
       let pad := all.length - defaults.length
-      -- defaults belong to the last parameters of `posonly ++ args`; "/" is a leaf when there are posonly ones
-      (all.take pad) ++ partsDefaults (all.drop pad) defaults
-        ++ (if posonly.isEmpty then [] else [['/']])
-        ++ optName [['*']] vararg
-        ++ (if kwonly.isEmpty || vararg.isSome then [] else [['*']])
+      -- one item per positional parameter; "/" is an item of its own right after the positional-only ones
+      let items := (all.take pad).map (fun a => [a]) ++ partsDefaults (all.drop pad) defaults
+      (if posonly.isEmpty then items else insertAt posonly.length [['/']] items).flatten
+        ++ (match vararg with
+            | none => if kwonly.isEmpty then [] else [['*']]
+            | some v => [['*'], v])
         ++ partsKwDefaults kwonly kwDefaults
         ++ optName [['*', '*']] kwarg
 end
@@ -192,22 +193,12 @@ def allArgs (p : Expr → Bool) : Args → Bool
   | .mk _ _ _ _ kwDefaults _ defaults => allOptList p kwDefaults && allList p defaults
 end
 
-def Keyword.named : Keyword → Bool
-  | .mk a _ => a.isSome
-def DictItem.keyed : DictItem → Bool
-  | .mk k _ => k.isSome
 def Comp.sync : Comp → Bool
   | .mk _ _ _ a => !a
 
-/-- nothing at this node makes the printer raise: every operator used has a table entry, no `**` keyword,
-no `**` dict entry, no bare `yield` -/
+/-- nothing at this node makes the printer raise: no bare `yield` (`visit_Yield` visits `None`).  That every
+operator has a table entry is the side condition `SymbolsTotal`. -/
 def totalLocal : Expr → Bool
-  | .unaryOp op _ => op.sym.isSome
-  | .binOp _ op _ => op.sym.isSome
-  | .boolOp op _ => op.sym.isSome
-  | .compare _ ops _ => ops.all fun o => o.sym.isSome
-  | .call _ _ kws => kws.all Keyword.named
-  | .dict items => items.all DictItem.keyed
   | .yield v => v.isSome
   | _ => true
 
@@ -220,13 +211,9 @@ def visitorsLocal : Expr → Bool
   | .dictComp .. => hasVisitor .dictComp && hasVisitor .comprehension
   | e => hasVisitor e.kind
 
-def Args.plain : Args → Bool
-  | .mk posonly _ _ kwonly _ _ _ => posonly.isEmpty && kwonly.isEmpty
-
-/-- the constructs whose parts `SourceGenerator` is known to drop are absent at this node: positional-only and
-keyword-only lambda parameters, `async` comprehension clauses, a slice step that is the *name* `None` -/
+/-- the constructs whose parts `SourceGenerator` is known to drop are absent at this node: `async` comprehension
+clauses, a slice step that is the *name* `None` -/
 def completeLocal : Expr → Bool
-  | .lambda a _ => a.plain
   | .listComp _ gs => gs.all Comp.sync
   | .setComp _ gs => gs.all Comp.sync
   | .generatorExp _ gs => gs.all Comp.sync
@@ -249,6 +236,13 @@ def totalGuard (e : Expr) : Bool := e.all totalLocal
 def completeLocalAll (n : Expr) : Bool := totalLocal n && visitorsLocal n && completeLocal n
 /-- guard of `print_complete_partial` -/
 def completeGuard (e : Expr) : Bool := e.all completeLocalAll
+
+/-- every operator class has an entry in mako's tables -/
+structure SymbolsTotal : Prop where
+  bool : ∀ o : BoolOp, ∃ s, o.sym = some s
+  bin : ∀ o : BinOp, ∃ s, o.sym = some s
+  unary : ∀ o : UnaryOp, ∃ s, o.sym = some s
+  cmp : ∀ o : CmpOp, ∃ s, o.sym = some s
 
 /-- wherever mako's operator tables have an entry it is Python's spelling of the operator -/
 structure SymbolsAgree : Prop where
